@@ -75,11 +75,18 @@ func (c *FnCtx) doCall(res *ssa.Call, cc *ssa.CallCommon, site ssa.Instruction) 
 	} else {
 		resTy = cc.Signature().Results()
 	}
-	var afterKey, lastRetKey string
+	var afterKey, lastRetKey, lastRetSite string
 	var afterArgs []Val
 	setRes := func(vs []Val) {
 		if afterKey != "" {
 			c.afterCallAnchor(afterKey, afterArgs, vs)
+		}
+		if lastRetKey != "" && len(vs) > 0 && c.watch[lastRetSite] {
+			// lastret("callee#k"): result of the k-th call site (source order) of that callee
+			c.setGhost(lastRetSite, vs[0])
+			for i := 1; i < len(vs); i++ {
+				c.setGhost(fmt.Sprintf("%s#%d", lastRetSite, i), vs[i])
+			}
 		}
 		if lastRetKey != "" && len(vs) > 0 && c.watch[lastRetKey] {
 			// ghost: first result of the most recent call to this callee on the current path
@@ -139,6 +146,7 @@ func (c *FnCtx) doCall(res *ssa.Call, cc *ssa.CallCommon, site ssa.Instruction) 
 		afterKey = fmt.Sprintf("after call %s#%d", shortName(name), ord)
 		afterArgs = args
 		lastRetKey = "lastret " + normAnchor(shortName(name))
+		lastRetSite = fmt.Sprintf("%s@%d", lastRetKey, ord)
 	}
 
 	// trivial field-address accessors (e.g. func (rr *OPT) Header() *RR_Header { return &rr.Hdr }) are inlined
